@@ -217,13 +217,53 @@ def all_layers(db, ctx):
 
 @rule("C04.exact", "MorphemeList::lookup keeps only entries whose end equals the query length")
 def exact(db, ctx):
-    f = db.one("lookup", "MorphemeList")
+    # by reachability: the push of a result node is reachable when the looked-up entry ends exactly at the end of the query, and is
+    # not reachable when it ends elsewhere — `if end != len {continue}`, `if end == len {push}`, `.filter(|e| e.end == len)` alike
+    from ..loops import iterations, chain, filter_atoms
+    from ..flow import holds_at
+    from ..db import is_local, deref_all
+    f = db.view(db.one("lookup", "MorphemeList"))
+    q_lid = next((p_.get("lid") for p_ in (f.info.get("params") or []) if isinstance(p_, dict) and (p_.get("ty") or "") == "&str"), None)
+
+    def is_qlen(e):
+        d = peel_casts(deref_all(e)) if isinstance(e, dict) else None
+        while isinstance(d, dict) and d.get("k") == "MethodCall" and d.get("method") in ("len", "as_bytes"):
+            if d["method"] == "len":
+                r = peel(deref_all(d["recv"]))
+                while isinstance(r, dict) and r.get("k") == "MethodCall" and r.get("method") == "as_bytes":
+                    r = peel(deref_all(r["recv"]))
+                return is_local(r, q_lid)
+            d = peel(d["recv"])
+        return False
+
+    def is_end(e):
+        d = peel_casts(deref_all(e)) if isinstance(e, dict) else None
+        return isinstance(d, dict) and d.get("k") == "Field" and d.get("name") == "end"
+
+    def ev_eq(equal):
+        def ev(atom):
+            c = cmp_atom(atom)
+            if c and c[0] in ("Eq", "Ne") and ((is_end(c[1]) and is_qlen(c[2])) or (is_end(c[2]) and is_qlen(c[1]))):
+                return equal if c[0] == "Eq" else (not equal)
+            return None
+        return ev
     ok = False
-    for n, ps in walk(f.hir):
-        if n.get("k") == "If" and exit_kind(n["then"]) == "continue":
-            c = cmp_atom(n["cond"])
-            if c and c[0] == "Ne" and "end" in render(c[1]) + render(c[2]) and "query.len()" in render(c[1]) + render(c[2]):
-                ok = True
+    sites = 0
+    for itn in iterations(f.hir):
+        names, base = chain(db, f, itn["it"])
+        if not any(is_call(c_) and path_ends(callee(c_) or "", ("LexiconSet::lookup", "Lexicon::lookup")) for _, c_ in names):
+            continue
+        extra = []
+        for m, call in names:
+            if m == "filter":
+                extra += filter_atoms(call) or []
+        for c, _ in walk(itn["body"]):
+            if c.get("k") == "MethodCall" and c.get("method") == "push" and mentions(c, is_call_to("ResultNode::new")):
+                sites += 1
+                pcs = (path_conditions(c["id"], itn["body"]) or []) + extra
+                ok = holds_at(pcs, ev_eq(False)) is False and holds_at(pcs, ev_eq(True)) is not False
+    if not sites:
+        raise AnchorMissing("MorphemeList::lookup: push of the result node inside the look-up loop")
     ctx.ob("MorphemeList::lookup|end==len", ok, "entries with entry.end != query.len() are skipped: %s" % ok, fn=f)
 
 
@@ -326,3 +366,9 @@ def reader_count_limit(db, ctx):
         if v is not None and v == pol:
             rej.append(render(cond)[:80])
     ctx.ob("WordIdTable::entries|accepts-max-count", not rej, "guards of WordIdTable::entries that reject a record of %s ids (the maximum the compiler writes): %s" % (limit or 127, rej), fn=e)
+
+
+@rule("C04.csv-rows", "word ids are row positions of the source CSV: the reader is configured so that no row is swallowed (re-evaluation of C05.csv-rows)")
+def csv_rows_reeval(db, ctx):
+    from . import C05
+    C05.csv_rows(db, ctx)
